@@ -35,6 +35,10 @@ func ruleTLSSuccessEffects(c *Ctx) {
 	isUp := c.direct("st:Conn.conn")
 	c.obFollow("upgrade then init()", f, isUp, []string{"call:(*Conn).init"}, nil, nil)
 	c.obFollow("upgrade then reset()", f, isUp, []string{lReset}, nil, nil)
+	// the effects themselves, not just the call: at this point the session is nil, so a reset() that
+	// returns early without a session would leave the plaintext envelope alive
+	c.obFollow("upgrade then sender cleared", f, isUp, []string{"st:Conn.fromReceived=false"}, nil, nil)
+	c.obFollow("upgrade then recipients cleared", f, isUp, []string{"st:Conn.recipients=nil"}, nil, nil)
 	c.obFollow("upgrade then helo cleared", f, isUp, []string{`st:Conn.helo=""`}, nil, nil)
 	c.obFollow("upgrade then didAuth cleared", f, isUp, []string{"st:Conn.didAuth=false"}, nil, nil)
 	c.obFollowH("upgrade then Logout", f, isUp, []string{lLogout}, `Conn.session != nil`)
